@@ -10,7 +10,7 @@ Bounded: B1 (validity / termination of __infer_type on emitted texts), B4 (get_p
 under hash seeds)."""
 from .. import vcrun
 from ..common import native, SEED
-from . import _b1, _cls, _groups as GR, _g5
+from . import _b1, _b4, _cls, _groups as GR, _g5
 
 LEVEL = "proof"
 
@@ -35,14 +35,7 @@ def run(rep, tier):
         rep.violation("meta constructor: " + f["expr"], f, {"kind": "expr", "expr": f["expr"]}, witness=f["expr"])
     if not r["failures"]:
         rep.ob("meta constructors over their flag domains: construct / compile / export", "discharged", "cpython-exhaustive", 0, kind="finite")
-    b4 = native("run_module", {"module": "pvc.bex_export", "func": "run", "args": {"tier": tier, "seed": SEED}}, timeout=3600)
-    rep.bounded.append({"id": "B4", "function": "Pregex.__repr__ / get_pattern", "contract": "exported text is printable and compiles to "
-                        "the same parse tree as the internal pattern; a compiled instance matches like an uncompiled one",
-                        "bound": "literals / classes over 28 'nasty' characters (control, quotes, backslash runs, non-BMP, combining), pairs "
-                                 "sampled, one DSL step", "evaluations": b4["evaluations"], "distinct_nontrivial": b4["evaluations"],
-                        "rule": "distinct expressions"})
-    for f in b4["failures"][:6]:
-        rep.violation("B4: " + f["what"][:60] + ": " + f["expr"][:80], f, {"kind": "expr", "expr": f["expr"]}, witness=f["expr"])
+    _b4.run(rep, tier)
     _b1.run(rep, tier, ["valid", "total"], "emitted texts are valid regexes; __infer_type terminates")
     _cls.run_bounded(rep, tier, "constructors", "B2", "class constructors: documented exception or a class text that compiles and "
                      "denotes the requested set, under every hash seed tried")
